@@ -64,14 +64,14 @@ func c02Profiles(tier Tier) []*explore.Profile {
 			return acts
 		},
 	}
-	return []*explore.Profile{supply, others, amountsProfile("C02", tier)}
+	return []*explore.Profile{supply, others, amountsProfile("C02", tier), highNonceProfile("high-nonce", tier, orc, 2)}
 }
 
 func init() { LedgerProfiles["C02"] = c02Profiles }
 
 // C02 decides "supply changes only by the stated amount".
 func C02(tier Tier) int {
-	return RunLedger("C02", tier, c02Profiles(tier), []string{
+	return RunLedger("C02", tier, c02Profiles(tier), []string{"high-nonce-reached",
 		"debit-exact:ESDTLocalBurn", "debit-exact:ESDTNFTBurn", "debit-exact:ESDTBurn", "wipe-ok",
 		"sender:ESDTLocalMint:ok", "sender:ESDTNFTCreate:ok", "sender:ESDTNFTAddQuantity:ok", "sender:ESDTLocalBurn:err", "sender:ESDTNFTBurn:err",
 	})
@@ -218,7 +218,7 @@ func c07Profiles(tier Tier) []*explore.Profile {
 			return acts
 		},
 	}
-	return []*explore.Profile{p}
+	return []*explore.Profile{p, highNonceProfile("high-nonce", tier, []explore.Oracle{&nonceOracle{property: "C07"}}, 1)}
 }
 
 func handoverMenu(w *world.World, o menuOpts, toks [][]byte) []world.Action {
@@ -239,7 +239,7 @@ func init() { LedgerProfiles["C07"] = c07Profiles }
 
 // C07 decides "NFT nonces are unique and strictly increasing per token".
 func C07(tier Tier) int {
-	return RunLedger("C07", tier, c07Profiles(tier), []string{
+	return RunLedger("C07", tier, c07Profiles(tier), []string{"high-nonce-reached",
 		"create-continues", "handover-same-shard", "handover-cross-shard", "handover-delivered", "handover-delivered-twice", "handover-delivered-late",
 		"create:R:nonce1", "create:S:nonce3", "create:S:nonce4",
 	}, "A7 system-contract discipline: one create-role holder per token, role moved only by ESDTNFTCreateRoleTransfer to a different account, create role never unset")
@@ -270,14 +270,14 @@ func c15Profiles(tier Tier) []*explore.Profile {
 			return acts
 		},
 	}
-	return []*explore.Profile{p}
+	return []*explore.Profile{p, highNonceProfile("high-nonce", tier, []explore.Oracle{&wellformedOracle{property: "C15"}}, 2)}
 }
 
 func init() { LedgerProfiles["C15"] = c15Profiles }
 
 // C15 decides "the token state is well-formed after every history".
 func C15(tier Tier) int {
-	return RunLedger("C15", tier, c15Profiles(tier), []string{
+	return RunLedger("C15", tier, c15Profiles(tier), []string{"high-nonce-reached",
 		"sender:ESDTNFTCreate:ok", "sender:ESDTNFTBurn:ok", "sys:ESDTWipe:ok", "sys:ESDTUnSetRole:ok", "sys:ESDTNFTCreateRoleTransfer:ok", "dest:ESDTNFTCreateRoleTransfer:ok",
 	}, "A7 system-contract discipline (roles set only when not held; NFT roles only on NFT tokens, mint/burn roles only on fungible tokens)")
 }
